@@ -18,7 +18,9 @@ Obligation scheme (DESIGN section 5, C08)
   C08.output.volatile / .finalize_order / .template_data / .groups
                           visit_Output, _output_child_to_const, _make_finalize (VC + emission)
   C08.const.roundtrip     has_safe_repr(v) => the text the real visit_Const writes evaluates back to v (table over a family)
-  C08.optimizer           Optimizer.generic_visit replaces a node only by Const.from_untrusted(as_const(node)), only Expr
+  C08.optimizer           Optimizer.generic_visit replaces a node only by Const.from_untrusted(as_const(node)), only Expr;
+                          C08.optimizer.forwards_eval_ctx.*: NodeVisitor.visit / generic_visit and NodeTransformer.generic_visit forward
+                          (*args, **kwargs) - the eval context - unchanged to every child visit (list fields and node fields)
   C08.optimizeconst       (contracts.c20.OptimizeConst) folding wrapper skips volatile frames / missing optimizer
   C08.evalctx.*           visit_EvalContextModifier, visit_ScopedEvalContextModifier, EvalContext.save/revert
   C08.bounded.differential   bounded stand-in: template family rendered optimized / unoptimized / constants-as-variables
@@ -1543,7 +1545,8 @@ class OptimizerVisit(VC):
         self.node = emit.make_node(st, N.Node, "node")
         self.node2 = emit.make_node(st, N.Node, "transformed")
         args = (self.g.eval_ctx,) if self.with_ctx else ()
-        return "locals", {"self": self.opt, "node": self.node, "args": args, "kwargs": st.alloc(HDict(items={}))}
+        self.kwv = sym("kwvalue", "obj")
+        return "locals", {"self": self.opt, "node": self.node, "args": args, "kwargs": st.alloc(HDict(items={"kw": self.kwv}))}
 
     def p_result(self, pre, out):
         is_expr = z3.Bool("transformed.isinstance(Expr)")
@@ -1551,6 +1554,10 @@ class OptimizerVisit(VC):
         ac = A.calls(out, "node.as_const")
         fu = A.calls(out, "Const.from_untrusted")
         if len(sup) != 1 or sup[0].args[0] != self.node:
+            return False
+        # the recursive transformation of the children runs under the SAME eval context / arguments
+        want_rest = [self.g.eval_ctx] if self.with_ctx else []
+        if list(sup[0].args[1:]) != want_rest or {k: v for k, v in sup[0].kwargs.items()} != {"kw": self.kwv}:
             return False
         if out.raised:
             # only a non-Impossible exception of as_const may propagate
@@ -1583,6 +1590,168 @@ class OptimizerVisit(VC):
 
     def replay(self, w):
         return native_family_replay("optimizer")
+
+
+class _Callee2:
+    def __init__(self, name):
+        self.__name__ = name
+
+    def __call__(self, *a, **k):
+        raise RuntimeError("abstract")
+
+
+F_VISIT = _Callee2("visit_Class")
+
+
+class VisitorForwards(VC):
+    """NodeVisitor.visit / NodeVisitor.generic_visit / NodeTransformer.generic_visit hand (*args, **kwargs) unchanged to EVERY child visit
+    (children in list-valued fields and in single-node fields alike) and to the visit_<Class> / generic_visit they dispatch to: the optimizer
+    passes the frame's EvalContext this way, so every node is folded under the eval context optimize() was given."""
+    prop = PROP
+
+    def __init__(self, which):
+        self.which = which
+        self.target = {"visit": "jinja2.visitor:NodeVisitor.visit", "generic_visit": "jinja2.visitor:NodeVisitor.generic_visit",
+                       "transform": "jinja2.visitor:NodeTransformer.generic_visit"}[which]
+        super().__init__(PROP, "C08.optimizer.forwards_eval_ctx." + {"visit": "NodeVisitor.visit", "generic_visit": "NodeVisitor.generic_visit",
+                                                                    "transform": "NodeTransformer.generic_visit"}[which])
+
+    def configure(self, I):
+        emit.install(I)
+        c = self
+
+        def visit_spec(I_, st, args, kwargs, node):
+            # the visit of a child: returns the child itself (kept), None (removed) or a replacement node
+            outs = []
+            for tag, rv in (("same", args[1]), ("none", None), ("new", c.replacement)):
+                s2 = st.fork()
+                s2.trace.append(Event("call", "self.visit", args[1:], kwargs, rv, lineno=getattr(node, "lineno", None)))
+                s2.note(f"visit -> {tag}")
+                outs.append((s2, rv))
+            return outs if c.which == "transform" else outs[:1]
+
+        I.specs["NodeVisitor.visit"] = visit_spec
+        I.specs["NodeTransformer.visit"] = visit_spec
+        I.specs["Optimizer.visit"] = visit_spec
+        I.specs["Optimizer.generic_visit"] = A.abstract_fn("self.generic_visit", returns="obj")
+        I.specs["NodeVisitor.generic_visit"] = I.specs["Optimizer.generic_visit"]
+        I.specs["NodeTransformer.generic_visit"] = I.specs["Optimizer.generic_visit"]
+
+        def get_visitor(I_, st, args, kwargs, node):
+            s2 = st.fork()
+            st.note("no visit_<Class> method")
+            s2.note("visit_<Class> exists")
+            return [(st, None), (s2, F_VISIT)]
+
+        I.specs["NodeVisitor.get_visitor"] = get_visitor
+        I.specs["Optimizer.get_visitor"] = get_visitor
+        I.specs[("fn", id(F_VISIT))] = A.abstract_fn("visit_Class", returns="obj")
+
+        def iter_fields(I_, st, args, kwargs, node):
+            return [(st, tuple(c.fields))]
+
+        def iter_child_nodes(I_, st, args, kwargs, node):
+            return [(st, tuple(c.children))]
+
+        I.specs["Node.iter_fields"] = iter_fields
+        I.specs["Node.iter_child_nodes"] = iter_child_nodes
+
+        def setattr_spec(I_, st, args, kwargs, node):
+            return I_.setattr(st, args[0], args[1], args[2], node)
+
+        I.specs[("fn", id(setattr))] = setattr_spec
+        I.specs[("fn", id(delattr))] = lambda I_, st, args, kwargs, node: [(st, None)]
+
+        # `lst[:] = values` (whole-list replacement in place) on a concrete list; the engine has no slice assignment
+        base_assign = I.assign
+
+        def assign(target, v, st, fr):
+            if isinstance(target, ast.Subscript) and isinstance(target.slice, ast.Slice) and target.slice.lower is None and target.slice.upper is None and target.slice.step is None:
+                outs = []
+                for s2, o in I.ev(target.value, st, fr):
+                    if isinstance(o, Raised):
+                        outs.append((s2, o))
+                        continue
+                    h = s2.get(o)
+                    if not (isinstance(h, HList) and h.concrete):
+                        raise Unsupported("slice assignment to an abstract list", target)
+                    h.items[:] = list(I.iter_concrete(s2, v, target))
+                    outs.append((s2, None))
+                return outs
+            return base_assign(target, v, st, fr)
+
+        I.assign = assign
+
+    def setup(self, I, st):
+        from jinja2.optimizer import Optimizer
+        self.g = emit.Gen(st)
+        self.opt = A.obj(st, Optimizer, "optimizer", fields={"environment": self.g.env})
+        mk = lambda path: emit.make_node(st, N.Const, path, kind="expr")
+        self.l0, self.l1, self.single = mk("node.items[0]"), mk("node.items[1]"), mk("node.single")
+        self.replacement = mk("replacement")
+        self.lst = st.alloc(HList(items=[self.l0, "not a node", self.l1]), initial=True)
+        self.node = emit.make_node(st, N.Node, "node", fields={"items": self.lst, "single": self.single, "name": "x"})
+        self.fields = [("items", self.lst), ("name", "x"), ("single", self.single)]
+        self.children = [self.l0, self.l1, self.single]
+        self.kwv = sym("kwvalue", "obj")
+        return "locals", {"self": self.opt, "node": self.node, "args": (self.g.eval_ctx,), "kwargs": st.alloc(HDict(items={"kw": self.kwv}))}
+
+    def forwarded(self, ev):
+        return list(ev.args[1:]) == [self.g.eval_ctx] and dict(ev.kwargs) == {"kw": self.kwv}
+
+    def p_forward(self, pre, out):
+        if out.raised:
+            return False
+        if self.which == "visit":
+            evs = A.calls(out, "visit_Class") + A.calls(out, "self.generic_visit")
+            if len(evs) != 1:
+                return False
+            ev = evs[0]
+            # visit_Class(node, *args, **kwargs) / self.generic_visit(node, *args, **kwargs)
+            a = list(ev.args)
+            if ev.name == "self.generic_visit":
+                a = a[1:]  # receiver
+            return a[:1] == [self.node] and a[1:] == [self.g.eval_ctx] and dict(ev.kwargs) == {"kw": self.kwv} and out.value is ev.result
+        evs = A.calls(out, "self.visit")
+        visited = [e.args[0] for e in evs]
+        if visited != [self.l0, self.l1, self.single] and not (self.which == "generic_visit" and visited == [self.l0, self.l1, self.single]):
+            return False
+        return all(self.forwarded(e) for e in evs)
+
+    def p_transform(self, pre, out):
+        """list field: kept / removed / replaced in place, non-node values kept; single field: replaced or deleted"""
+        if self.which != "transform" or out.raised:
+            return None
+        evs = A.calls(out, "self.visit")
+        if len(evs) != 3:
+            return False
+        want = []
+        for child, ev in ((self.l0, evs[0]), (None, None), (self.l1, evs[1])):
+            if child is None:
+                want.append("not a node")
+            elif ev.result is not None:
+                want.append(ev.result)
+        items = out.st.get(self.lst).items
+        ok_list = items == want
+        single = out.st.get(self.node).fields.get("single")
+        ok_single = True if evs[2].result is None else (single == evs[2].result)
+        return bool(ok_list and ok_single and out.value == self.node)
+
+    posts = [("every_child_visit_receives_exactly_args_and_kwargs", p_forward), ("children_replaced_in_place", p_transform)]
+
+    def concretize(self, model, pre, out):
+        return {"class": "optimizer-forwarding", "which": self.which}
+
+    def replay(self, w):
+        return native_nested_replay()
+
+
+def native_nested_replay():
+    n, bad = differential(nested_family(), placements=["set", "output"], envs=["default"])
+    bad = [b for b in bad if b[0] not in known_keys()]
+    if bad:
+        return True, f"{bad[0][1]}  [{bad[0][0]}]"
+    return False, f"{n} renderings of constant sub-expressions in list positions inside autoescape blocks agree"
 
 
 class FromUntrusted(VC):
@@ -1847,6 +2016,21 @@ def family():
         for a in ("seven", "abc", "safe", "none"):
             out.append(Expr_("Test", "{0} is " + t, a))
     return out
+
+
+def nested_family():
+    """constant sub-expressions in LIST positions (list items, filter arguments, ~ operands) whose value depends on the autoescape setting
+    of the enclosing block (the block modes differ from the environment default): the optimizer must fold them under the block's eval context"""
+    return [Expr_("Filter", "[{0}, {1} ~ {2}]|join('|')", "a", "lt", "safe"),
+            Expr_("Filter", "{0}|replace('b', [{1}, {2}]|join)", "abc", "lt", "safe"),
+            Expr_("Concat", "{0} ~ ({1} ~ {2})", "a", "lt", "safe"),
+            Expr_("List", "[{0} ~ {1}, {2}]", "lt", "safe", "one"),
+            Expr_("Tuple", "({0} ~ {1}, {2} ~ {0})", "lt", "safe", "a"),
+            Expr_("Filter", "{0}|default({1} ~ {2}, true)", "empty", "safe", "lt"),
+            Expr_("CondExpr", "({1} ~ {2}) if {0} else {2}", "true", "safe", "lt"),
+            Expr_("Dict", "{{'k': {0} ~ {1}}}", "lt", "safe"),
+            Expr_("Compare", "({0} ~ {1}) == ({0} ~ {1})", "lt", "safe"),
+            Expr_("Test", "({0} ~ {1}) is escaped", "lt", "safe")]
 
 
 def strict_family():
@@ -2121,6 +2305,8 @@ class Differential(FnTask):
         fam = [e for e in family() if PARTS[self.part](e)]
         if tier == "quick":
             fam = fam[::3] + [e for e in fam if e.cls in ("Concat", "Dict", "Getitem")][1::3]
+        if self.part == "operators":
+            fam = fam + nested_family()
         return fam
 
     def run(self, tier, seed):
@@ -2248,6 +2434,9 @@ def roundtrip_family():
         ("tuple_bigint", (10 ** 4300,)), ("list_range", [range(3)]), ("tuple_complex", (2j, -0.0)),
     ]
     unsafe = [("object", object()), ("bytes", b"x"), ("strsubclass", type("S", (str,), {})("x")), ("list_with_bytes", [1, b"x"]), ("dict_objkey", {object(): 1}),
+              ("namedtuple", __import__("collections").namedtuple("P", "a b")(1, 2)), ("listsubclass", type("L", (list,), {})([1])),
+              ("tuplesubclass", type("T", (tuple,), {})((1,))), ("tuple_with_namedtuple", (1, __import__("collections").namedtuple("Q", "a")(1))),
+              ("grouptuple", __import__("jinja2").filters._GroupTuple("k", [1])), ("markupsubclass", type("M", (__import__("markupsafe").Markup,), {})("x")),
               ("undefined", __import__("jinja2").Undefined()), ("function", len), ("intsubclass", type("I", (int,), {})(3)), ("dictsubclass", type("D", (dict,), {})())]
     return vals, unsafe
 
@@ -2371,6 +2560,7 @@ TASKS = (
     + [OutputConsistency(None), OutputConsistency("t_buf")]
     + [Roundtrip()]
     + [OptimizerVisit(True), OptimizerVisit(False), FromUntrusted()]
+    + [VisitorForwards("visit"), VisitorForwards("generic_visit"), VisitorForwards("transform")]
     + evalctx_tasks() + [SaveRevert()]
     + [Differential(p) for p in ("filters_a", "filters_b", "tests", "operators", "extras")]
 )
